@@ -21,9 +21,9 @@ pub struct ModelV<'a> {
 
 pub fn expectation<K: Fam>(cx: &StepCx<K>, fault_pending: bool) -> Option<Expect> {
     let signer = cx.signer()?;
-    let mcx = model::Ctx { fam: cx.fam(), signer_pk: &signer.pk, fault_pending };
+    let mcx = model::Ctx { fam: signer.fam, signer_pk: &signer.pk, fault_pending };
     match (cx.op, &cx.h.init) {
-        (None, Init::Builder { calls }) => Some(model::expect_build(&mcx, calls)),
+        (None, Init::Builder { calls }) | (None, Init::BuilderReuse { calls, .. }) => Some(model::expect_build(&mcx, calls)),
         (None, Init::Decoded { .. }) => None,
         (Some(op), _) => {
             let pks: Vec<Vec<u8>> = cx.keys.iter().map(|k| k.pk.clone()).collect();
